@@ -143,6 +143,28 @@ theorem bank_size_fits_usize (d : Decls) (defs : Defs) (b : BankdefAst) (bank : 
   repeat' (split at h <;> try (cases h; done))
   all_goals (injection h with h; subst h; simp only at hs; first | (cases hs; done) | (injection hs with hs; subst hs; assumption))
 
+/-- **a bank's window in the output is addressable** (finding F81, repaired): where a bank has a size and an output offset,
+    their sum fits a machine word - so no position inside the bank can wrap around -/
+theorem bank_window_fits_usize (d : Decls) (defs : Defs) (b : BankdefAst) (bank : Bank) (h : defineBank d defs b = .ok bank) :
+    ∀ s o, bank.size = some s → bank.outp = some o → o + s < USIZE_MAX1 := by
+  intro s o hs ho
+  unfold defineBank at h
+  simp only [bind, Except.bind, pure, Except.pure] at h
+  repeat' (split at h <;> try (cases h; done))
+  all_goals (injection h with h; subst h; simp only at hs ho)
+  all_goals (first
+    | (cases hs; done)
+    | (cases ho; done)
+    | (subst_vars
+       rename_i hq
+       simp only at hq
+       split at hq
+       · rename_i hlt
+         first
+           | exact hlt
+           | (injection hs with hs; rw [← hs]; exact hlt)
+       · cases hq))
+
 /-! ### positions are machine words that never wrap (finding F61, repaired) -/
 
 /-- the position of the current bank, read back after it was set (the bank exists) -/
